@@ -1,7 +1,7 @@
 (* C13 — A later barrier stage sees an event only after the previous stage finished it. *)
 From Coq Require Import Arith Lia.
 From DC Require Import Disruptor.Pipeline.
-From DC Require Disruptor.HB Disruptor.PipeReplay.
+From DC Require Disruptor.HB Disruptor.PipeReplay Disruptor.MultiPub Disruptor.Handlers Disruptor.MultiPipe.
 From Coq Require Import ZArith.
 
 Theorem C13_stage_order : forall N H stage last s h i a g,
@@ -47,6 +47,24 @@ Theorem C13_replayed_run_respects_stage_order : forall N H stage last l r',
   i <= done (PipeReplay.pm r') g.
 Proof. exact PipeReplay.replay_stage_order. Qed.
 
+(* the same for MULTI-PRODUCER pipelines of any topology (Disruptor/MultiPipe.v) *)
+Theorem C13_multi_pipeline_stage_order : forall N, 1 <= N -> forall H stage last
+  (stage_le : forall h, h < H -> stage h <= last)
+  (stage_nonempty : forall k, k <= last -> exists h, h < H /\ stage h = k) x h i a g,
+  MultiPipe.mreachable N H stage last x -> h < H -> g < H -> Handlers.hp (MultiPipe.hs x) h = HBatch i a ->
+  S (stage g) = stage h -> i <= Handlers.done (MultiPipe.hs x) g.
+Proof. exact MultiPipe.mp_stage_order. Qed.
+
+Theorem C13_multi_pipeline_sees_earlier_stages_only : forall N, 1 <= N -> forall H stage last
+  (stage_le : forall h, h < H -> stage h <= last)
+  (stage_nonempty : forall k, k <= last -> exists h, h < H /\ stage h = k) x h i a,
+  MultiPipe.mreachable N H stage last x -> h < H -> Handlers.hp (MultiPipe.hs x) h = HBatch i a ->
+  (forall g, g < H -> stage g < stage h -> i <= Handlers.done (MultiPipe.hs x) g) /\
+  (forall g, g < H -> stage h < stage g -> Handlers.done (MultiPipe.hs x) g < i).
+Proof. exact MultiPipe.mp_earlier_done_later_untouched. Qed.
+
+Print Assumptions C13_multi_pipeline_stage_order.
+Print Assumptions C13_multi_pipeline_sees_earlier_stages_only.
 Print Assumptions C13_replayed_run_respects_stage_order.
 Print Assumptions C13_stage_order.
 Print Assumptions C13_stage_order_percursor_stale_reads.
